@@ -132,3 +132,141 @@ Proof.
   - apply andb_prop in E. destruct E as [E1 E2]. apply Z.eqb_eq in E1, E2. subst. now rewrite Hn.
   - now rewrite <- andb_assoc, E, andb_false_r.
 Qed.
+
+(* ------------------------------------------------------------------ frames *)
+(* events of other nodes never change what the cache holds for node k *)
+Definition involves (o : op) (k : Z) : bool :=
+  match o with
+  | OReserve _ node _ | OUnreserve _ node _ => node =? k
+  | OAdd _ p | ODelete _ p => p_node p =? k
+  | OUpdate _ old p => (old =? k) || (p_node p =? k)
+  | OMetric _ node _ | OMetricDel _ node => node =? k
+  | OFilter _ _ _ => false
+  end.
+
+Lemma put_or_cleanup_other (c : cache) node n k :
+  (node =? k) = false -> alookup k (put_or_cleanup c node n) = alookup k c.
+Proof.
+  intro H. unfold put_or_cleanup.
+  destruct (n_metric n); [now rewrite alookup_aset, H|].
+  destruct (n_pods n); [now rewrite alookup_aremove, H|now rewrite alookup_aset, H].
+Qed.
+
+Lemma assign_other cfg now node p c k :
+  (node =? k) = false -> alookup k (assign cfg now node p c) = alookup k c.
+Proof.
+  intro H. unfold assign. destruct ((node =? 0) || p_term p || p_resv p); [reflexivity|].
+  now rewrite alookup_aset, H.
+Qed.
+
+Lemma unassign_other node uid c k :
+  (node =? k) = false -> alookup k (unassign node uid c) = alookup k c.
+Proof.
+  intro H. unfold unassign. destruct (node =? 0); [reflexivity|].
+  destruct (alookup node c); [|reflexivity]. now apply put_or_cleanup_other.
+Qed.
+
+Lemma step_node_frame cfg c o k :
+  involves o k = false -> alookup k (step cfg c o) = alookup k c.
+Proof.
+  destruct o; cbn [involves step]; intro H.
+  - now apply assign_other.
+  - now apply unassign_other.
+  - now apply assign_other.
+  - apply orb_false_elim in H. destruct H as [H1 H2]. unfold on_update.
+    set (c1 := if negb (old_node =? 0) && negb (old_node =? p_node p)
+               then unassign old_node (p_uid p) c else c).
+    assert (Hc1 : alookup k c1 = alookup k c).
+    { unfold c1. destruct (negb (old_node =? 0) && negb (old_node =? p_node p));
+        [now apply unassign_other|reflexivity]. }
+    destruct (pod_info c1 (p_node p) (p_uid p)) as [o|]; [|now rewrite assign_other].
+    destruct (p_term p); [now rewrite unassign_other|].
+    destruct (negb (spec_eqb p (pi_pod o)) || negb (cond_eqb p (pi_pod o)));
+      [now rewrite assign_other|exact Hc1].
+  - now apply unassign_other.
+  - unfold set_metric. now rewrite alookup_aset, H.
+  - unfold del_metric. destruct (alookup node c); [|reflexivity]. now apply put_or_cleanup_other.
+  - reflexivity.
+Qed.
+
+Lemma run_node_frame cfg ops c k :
+  forallb (fun o => negb (involves o k)) ops = true ->
+  alookup k (fold_left (step cfg) ops c) = alookup k c.
+Proof.
+  revert c. induction ops as [|o ops IH]; intros c H; [reflexivity|].
+  cbn [forallb] in H. apply andb_prop in H. destruct H as [Ho Hops].
+  cbn [fold_left]. rewrite IH by exact Hops. apply step_node_frame. now apply negb_true_iff.
+Qed.
+
+(* the entry (k, u) of the pod table is changed only by events about pod u that name node k;
+   metric events never change the pod table *)
+Definition touches (o : op) (k u : Z) : bool :=
+  match o with
+  | OReserve _ node p | OUnreserve _ node p => (node =? k) && (p_uid p =? u)
+  | OAdd _ p | ODelete _ p => (p_node p =? k) && (p_uid p =? u)
+  | OUpdate _ old p => (p_uid p =? u) && ((old =? k) || (p_node p =? k))
+  | _ => false
+  end.
+
+Lemma pod_info_set_metric cfg node m c k u :
+  pod_info (set_metric cfg node m c) k u = pod_info c k u.
+Proof.
+  unfold pod_info, set_metric. destruct (k =? 0); [reflexivity|].
+  rewrite alookup_aset. destruct (node =? k) eqn:E; [|reflexivity].
+  apply Z.eqb_eq in E. subst k. cbn [n_pods]. unfold get_node.
+  destruct (alookup node c); reflexivity.
+Qed.
+
+Lemma pod_info_del_metric node c k u : pod_info (del_metric node c) k u = pod_info c k u.
+Proof.
+  unfold pod_info, del_metric. destruct (k =? 0); [reflexivity|].
+  destruct (alookup node c) as [n|] eqn:En; [|reflexivity].
+  destruct (node =? k) eqn:E; [|now rewrite put_or_cleanup_other].
+  apply Z.eqb_eq in E. subst k. rewrite En. unfold put_or_cleanup. cbn [n_metric n_pods].
+  destruct (n_pods n) eqn:Ep.
+  - now rewrite alookup_aremove, Z.eqb_refl.
+  - rewrite alookup_aset, Z.eqb_refl. cbn [n_pods]. reflexivity.
+Qed.
+
+Lemma step_table_frame cfg c o k u :
+  touches o k u = false -> pod_info (step cfg c o) k u = pod_info c k u.
+Proof.
+  destruct o; cbn [touches step]; intro H.
+  - rewrite pod_info_assign. rewrite (Z.eqb_sym k node), (Z.eqb_sym u (p_uid p)).
+    rewrite <- andb_assoc, H. now rewrite andb_false_r.
+  - rewrite pod_info_unassign. now rewrite (Z.eqb_sym k node), (Z.eqb_sym u (p_uid p)), H.
+  - rewrite pod_info_assign. rewrite (Z.eqb_sym k (p_node p)), (Z.eqb_sym u (p_uid p)).
+    rewrite <- andb_assoc, H. now rewrite andb_false_r.
+  - unfold on_update.
+    set (c1 := if negb (old_node =? 0) && negb (old_node =? p_node p)
+               then unassign old_node (p_uid p) c else c).
+    assert (Hc1 : pod_info c1 k u = pod_info c k u).
+    { unfold c1. destruct (negb (old_node =? 0) && negb (old_node =? p_node p)); [|reflexivity].
+      rewrite pod_info_unassign. rewrite (Z.eqb_sym k old_node), (Z.eqb_sym u (p_uid p)).
+      destruct (p_uid p =? u); [|now rewrite andb_false_r].
+      cbn [andb] in H. apply orb_false_elim in H. destruct H as [H1 _]. now rewrite H1. }
+    assert (Hmatch : (k =? p_node p) && (u =? p_uid p) = false).
+    { rewrite (Z.eqb_sym k (p_node p)), (Z.eqb_sym u (p_uid p)).
+      destruct (p_uid p =? u); [|now rewrite andb_false_r].
+      cbn [andb] in H. apply orb_false_elim in H. destruct H as [_ H2]. now rewrite H2. }
+    destruct (pod_info c1 (p_node p) (p_uid p)) as [o|].
+    + destruct (p_term p).
+      * now rewrite pod_info_unassign, Hmatch.
+      * destruct (negb (spec_eqb p (pi_pod o)) || negb (cond_eqb p (pi_pod o))); [|exact Hc1].
+        rewrite pod_info_assign, <- andb_assoc, Hmatch. now rewrite andb_false_r.
+    + rewrite pod_info_assign, <- andb_assoc, Hmatch. now rewrite andb_false_r.
+  - rewrite pod_info_unassign. now rewrite (Z.eqb_sym k (p_node p)), (Z.eqb_sym u (p_uid p)), H.
+  - apply pod_info_set_metric.
+  - apply pod_info_del_metric.
+  - reflexivity.
+Qed.
+
+(* after any history, the entry (k, u) is the one left by the last event that touched it *)
+Lemma run_table_frame cfg ops c k u :
+  forallb (fun o => negb (touches o k u)) ops = true ->
+  pod_info (fold_left (step cfg) ops c) k u = pod_info c k u.
+Proof.
+  revert c. induction ops as [|o ops IH]; intros c H; [reflexivity|].
+  cbn [forallb] in H. apply andb_prop in H. destruct H as [Ho Hops].
+  cbn [fold_left]. rewrite IH by exact Hops. apply step_table_frame. now apply negb_true_iff.
+Qed.
